@@ -466,16 +466,13 @@ private theorem move_step (s : St) (win : List Addr) (o : Op) (hi : Inv s win) :
     · simp at hp'
   | reset =>
     refine ⟨by simp [StepOk, step, resetLatch], by simp [step, resetLatch, hon], ?_⟩
-    intro p' hp'
-    simp only [step, resetLatch, freshProb] at hp'
-    split at hp' <;> simp at hp'
-    subst hp'; simp
+    intro p' hp' c hcm
+    -- the table is EMPTY after a reset (`resetLatch_fresh`): no pre-reset source stays eligible
+    simp [(resetLatch_fresh s p' (by simpa [step] using hp')).1] at hcm
   | sig a =>
     refine ⟨by simp [StepOk, step, setFromSignaling], by simp [step, setFromSignaling, resetLatch, hon], ?_⟩
-    intro p' hp'
-    simp only [step, setFromSignaling, resetLatch, freshProb] at hp'
-    split at hp' <;> simp at hp'
-    subst hp'; simp
+    intro p' hp' c hcm
+    simp [(setFromSignaling_fresh s a p' (by simpa [step] using hp')).1] at hcm
   | pair a =>
     simp only [StepOk, step, setFromPair, winStep]
     split
@@ -489,15 +486,11 @@ private theorem move_step (s : St) (win : List Addr) (o : Op) (hi : Inv s win) :
   | ssrc v =>
     refine ⟨by simp [StepOk, step], by simp [step, hon], ?_⟩
     intro p' hp'
-    simp only [step, setExpectedSsrc, winStep] at hp' ⊢
-    split at hp'
-    · rename_i hne
-      simp at hp'
-      obtain ⟨q, _, rfl⟩ := hp'
-      simp
-    · rename_i he
-      have he' : v = s.expected := by simpa using (Eq.symm (by simpa using he))
-      simp [he']; exact hc p' hp'
+    by_cases he : s.expected = v
+    · simp only [step, setExpectedSsrc_same s v he] at hp'
+      simp only [winStep, he.symm, ↓reduceIte]; exact hc p' hp'
+    · intro c hcm
+      simp [(setExpectedSsrc_fresh s v he p' (by simpa [step] using hp')).1] at hcm
   | maxp v => exact ⟨by simp [StepOk, step], by simpa [step] using hon, fun p' hp' => hc p' (by simpa [step] using hp')⟩
   | rtcpAddr a => exact ⟨by simp [StepOk, step, setRtcpAddr], by simpa [step, setRtcpAddr] using hon,
       fun p' hp' => hc p' (by simpa [step, setRtcpAddr] using hp')⟩
@@ -535,6 +528,51 @@ example :
     let s := run (init ⟨9, 5009⟩ 6 false) [.ssrc 7, .enable]
     (step s (.pair ⟨3, 5009⟩)).remote = ⟨3, 5009⟩ ∧
     (step (step s (.pkt ⟨1, 5001⟩ (.rtp 7 1 0 true))) (.pair ⟨3, 5009⟩)).remote = ⟨1, 5001⟩ := by decide
+
+/-! ### A signaling reset starts a fresh selection -/
+
+/-- what a connection keeps across `reset_latch`: everything except the two latched flags and
+the probation table -/
+def SameConfig (s1 s2 : St) : Prop :=
+  s1.rtcpRemote = s2.rtcpRemote ∧ s1.latchOn = s2.latchOn ∧ s1.expected = s2.expected ∧
+  s1.maxPackets = s2.maxPackets ∧ s1.tcp = s2.tcp
+
+/-- **reset_starts_fresh_selection**: after `reset_latch` / a signaling retarget the latch is open and
+the window is fresh (no candidates, no packets counted, configured size) — and NOTHING of what was
+observed before can influence anything afterwards: two connections that differ arbitrarily in their
+probation tables and latched flags (i.e. in the packets they saw before) behave identically, state
+for state, on every later operation sequence. In particular no pre-reset packet votes in a later
+rule-3 majority and the destination cannot return to a source that sent nothing since the reset
+(`move_only_to_legit_source`: the window `win` restarts empty). -/
+theorem reset_starts_fresh_selection (s1 s2 : St) (h : SameConfig s1 s2) (a : Addr) (ops : List Op) :
+    (s1.remote = s2.remote → run (resetLatch s1) ops = run (resetLatch s2) ops) ∧
+    run (setFromSignaling s1 a) ops = run (setFromSignaling s2 a) ops ∧
+    (resetLatch s1).rtpLatched = false ∧ (setFromSignaling s1 a).rtpLatched = false ∧
+    (∀ p, (resetLatch s1).prob = some p ∨ (setFromSignaling s1 a).prob = some p →
+      p.cands = [] ∧ p.total = 0 ∧ p.max = s1.maxPackets) := by
+  obtain ⟨h1, h2, h3, h4, h5⟩ := h
+  refine ⟨fun hr => ?_, ?_, by simp [resetLatch], by simp [setFromSignaling, resetLatch], ?_⟩
+  · have : resetLatch s1 = resetLatch s2 := by
+      cases s1; cases s2; simp_all [resetLatch, freshProb]
+    rw [this]
+  · have : setFromSignaling s1 a = setFromSignaling s2 a := by
+      cases s1; cases s2; simp_all [setFromSignaling, resetLatch, freshProb]
+    rw [this]
+  · rintro p (hp | hp)
+    · exact resetLatch_fresh s1 p hp
+    · exact setFromSignaling_fresh s1 a p hp
+
+/-- non-vacuity / the coordinator's seed C18-b scenario (window 4, old source B sends 3 packets, reset in the
+open window with the SAME expected SSRC, new source A sends one packet): nothing is decided after A's first
+packet, the table holds only A, and the destination is A — B does not come back. -/
+example :
+    let s := run (init ⟨9, 5009⟩ 4 false) [.ssrc 7, .enable, .pkt ⟨2, 5002⟩ (.rtp 7 10 0 false),
+      .pkt ⟨2, 5002⟩ (.rtp 7 20 0 false), .pkt ⟨2, 5002⟩ (.rtp 7 30 0 false)]
+    let t := run s [.reset, .pkt ⟨1, 5001⟩ (.rtp 7 500 0 false)]
+    s.rtpLatched = false ∧ (∃ p, s.prob = some p ∧ p.total = 3) ∧
+    t.rtpLatched = false ∧ t.remote = ⟨1, 5001⟩ ∧
+    t.prob = some ⟨[⟨⟨1, 5001⟩, 500, 500, 0, 1, 0, false⟩], 1, 4⟩ := by
+  refine ⟨by decide, ⟨_, rfl, by decide⟩, by decide, by decide, by decide⟩
 
 /-! ### An API call racing with `receive`
 
